@@ -1,4 +1,5 @@
 import JadeModel.Proofs.Lifecycle
+import JadeModel.Gen.Replica
 
 set_option linter.unusedSimpArgs false
 
@@ -508,5 +509,10 @@ example : Execution cfgAll [{ entry := .submitJobs, ctx := { cfg := cfgAll, batc
       subst h1 h2 hb; simp
     · obtain ⟨h1, h2, h3, ⟨hb, _⟩, _⟩ := h
       subst h1 h2 h3 hb; simp
+
+/-- multi-node allocations: the node setup / node teardown statements of `JobRunner.run_jobs` are guarded by the
+    configuration only, never by the node's id or the manager flag (generated from the source) — so the per-node
+    statements above hold on every node of an allocation, not only on the manager node -/
+theorem C16_node_hooks_on_every_node : Jade.Gen.Replica.nodeHooksOnEveryNode = true := by decide
 
 end Jade.C16
